@@ -121,7 +121,21 @@ def make_tamper(alter, plan, state: dict):
                     p = None
                 return adv_response(conn, p)
             return None
-        if conn.port == 135 or len(data) < 24 or data[2] != rpce.RESPONSE:
+        if kind == "busy-fault":
+            # the adversary answers the sealed request with an (unauthenticated) "server too busy" fault; whatever the client sends
+            # afterwards on this connection is answered with the adversary's cleartext Response
+            if conn.port == 135 or len(data) < 16 or data[2] not in (rpce.RESPONSE, rpce.FAULT):
+                return None
+            state["n"] = state.get("n", 0) + 1
+            state["applied"] = True
+            try:
+                p = rpce.parse_pdu(data)
+            except Exception:  # noqa: BLE001
+                p = None
+            if state["n"] == 1:
+                return rpce.build_fault(alter[2] if len(alter) > 2 else 0x1C010014, ctx_id=0, call_id=p["call_id"] if p else 1)
+            return adv_response(conn, p)
+        if conn.port == 135 or len(data) < 24 or data[2] not in ((rpce.RESPONSE, rpce.FAULT) if state.get("replace_faults") else (rpce.RESPONSE,)):
             return None
         state["seen"] = state.get("seen", 0) + 1
         state["authentic"] = data
@@ -331,7 +345,8 @@ def run_raw(case) -> dict:
     import dpapi_ng._rpc as rpc
     from dpapi_ng._gkdi import GetKey
 
-    _, ctxname, fl, alter = case
+    _, ctxname, fl, alter = case[:4]
+    empty = len(case) > 4 and case[4] == "empty"  # a call whose stub is empty (a method without arguments), no verification trailer
     ctx, hs = CTXS[ctxname]
     world = W.World(7)
     world.clock.set_filetime(FT)
@@ -350,34 +365,36 @@ def run_raw(case) -> dict:
     dc = refdc.RefDC(world, [rk], host=offline.DC, caller_sids={SID}, acceptor_factory=acc, rpc_knobs={"header_sign": hs})
     sd = dtyp.target_sd(SID)
     plan = {"root_keys": [rkspec], "ops": [{"op": "unprotect", "blob": {"pos": BLOB_POS}}]}
-    state: dict = {}
+    state: dict = {"replace_faults": empty}
     tamper = make_tamper(alter, plan, state)
     world.tampers = type("T", (dict,), {"get": lambda self, k, d=None: tamper})()
     gk = GetKey(sd, rk.root_key_id, *BLOB_POS)
+    stub_arg = b"" if empty else gk.pack()
+    vt_arg = None if empty else dclient._VERIFICATION_TRAILER
 
     def sync_work():
         with rpc.create_rpc_connection(offline.DC, dc.gkdi_port, auth_protocol=ap, **creds) as c:
             c.bind(dclient._ISD_KEY_CONTEXTS)
-            return c.request(0, 0, gk.pack(), verification_trailer=dclient._VERIFICATION_TRAILER)
+            return c.request(0, 0, stub_arg, verification_trailer=vt_arg)
 
     async def async_work():
         c = await rpc.async_create_rpc_connection(offline.DC, dc.gkdi_port, auth_protocol=ap, **creds)
         async with c:
             await c.bind(dclient._ISD_KEY_CONTEXTS)
-            return await c.request(0, 0, gk.pack(), verification_trailer=dclient._VERIFICATION_TRAILER)
+            return await c.request(0, 0, stub_arg, verification_trailer=vt_arg)
 
     with world.installed(ctx_factory=cf):
         out = drive.classify(sync_work) if fl == "sync" else drive.classify(lambda: drive.run_async(world, async_work, _r.Random(3)))
     if not state.get("applied"):
         raise common.HarnessError(f"adversary never got to act: {case} {out.brief()} {out.exc!r}")
     viol = None
-    probes = {"alter_" + alter[0]: 1, "raw_request_level": 1}
+    probes = {"alter_" + alter[0]: 1, "raw_request_level": 1, "empty_stub_request": int(empty)}
     if out.kind == "ok":
         v = out.value
         # compare the whole sealed region (stub + the DC's padding): pad_length itself sits in the security trailer, which is
         # only protected when header signing is on, so it must not be used to cut the comparison
         stub = bytes(v.stub_data)
-        g = dc.getkey_log[-1] if dc.getkey_log else {}
+        g = dc.getkey_log[-1] if (dc.getkey_log and not empty) else {}
         sealed = rpce.ndr64_getkey_response(g.get("envelope"), g.get("hresult", 0)) if g else None
         if sealed is not None:
             sealed = sealed + b"\xa5" * (-len(sealed) % 16)
@@ -566,7 +583,7 @@ def run(case) -> dict:
     adv_rk = adv_root_key(plan["root_keys"][0])
 
     def V(cond, detail):
-        what = alter[0] + ("-" + str(alter[1]) if alter[0] in ("strip", "lenfix", "mitm-handshake", "fragment", "connect-flap", "epm-port-135") else "")
+        what = alter[0] + ("-" + str(alter[1]) if alter[0] in ("strip", "lenfix", "mitm-handshake", "fragment", "connect-flap", "epm-port-135", "busy-fault") else "")
         return common.violation("C16", what, fl, cond, opname, "",
                                 f"{detail}; alteration={alter} ctx={ctxname} op={opname} outcome={out.brief()} {out.exc!r}")
 
@@ -625,7 +642,7 @@ class C16(common.Check):
             "of an earlier connection replayed; handshake man-in-the-middle (security trailers removed from bind_ack / alter_context_resp, every "
             "later server PDU replaced by the adversary's cleartext Response); PFC_LAST_FRAG cleared on the sealed reply and a cleartext "
             "continuation fragment appended; two requests on one connection through the raw client (first reply bit-flipped, second replaced by "
-            "a cleartext forgery; an adversary mapper that announces port 135 itself as the key endpoint and serves GetKey there without any security context; first reply untouched, second replaced by the first one again); two or three caller threads protecting at the "
+            "a cleartext forgery; a call with an empty stub whose reply is replaced; a 'server too busy' fault injected before a cleartext Response; an adversary mapper that announces port 135 itself as the key endpoint and serves GetKey there without any security context; first reply untouched, second replaced by the first one again); two or three caller threads protecting at the "
             "same time (sync API, deterministic thread scheduler biased to the instants after socket reads and unwraps) while the adversary answers "
             "the unauthenticated endpoint-mapper request of the later lookups with a cleartext Response carrying its own GetKey reply. Non-trivial = every case (each alters the reply); distinct = distinct tuple.")
     components = {"client": "real (public API, RPC client, AuthenticationProvider)", "security context": "real pyspnego NTLM / Negotiate->NTLM (initiator and acceptor) and StubCtx (stub)",
@@ -633,7 +650,7 @@ class C16(common.Check):
                   "transport / entropy / clock": "simulated"}
     assumptions = ["outcome-based: a correct client may reject earlier or later or tolerate a change in an unprotected field, as long as the result equals the authentic one",
                    "pyspnego NTLM signs data_readonly buffers too, so 'header signing off' is only observable with StubCtx"]
-    required_fired = ("alter_strip", "alter_flip", "alter_lenfix", "alter_subst", "alter_replay", "alter_mitm-handshake", "alter_connect-flap", "alter_epm-port-135", "alter_fragment", "alter_tworeq", "alter_tworeq_replay", "alter_threads", "thread_overlap", "epm_reply_replaced", "raw_request_level", "rejected")
+    required_fired = ("alter_strip", "alter_flip", "alter_lenfix", "alter_subst", "alter_replay", "alter_mitm-handshake", "alter_connect-flap", "alter_epm-port-135", "alter_busy-fault", "empty_stub_request", "alter_fragment", "alter_tworeq", "alter_tworeq_replay", "alter_threads", "thread_overlap", "epm_reply_replaced", "raw_request_level", "rejected")
 
     def exhaustive(self, tier):
         return tier == "thorough"
@@ -659,6 +676,8 @@ class C16(common.Check):
                         out.append([ctxname, "p256", opname, fl, ["mitm-handshake", kind]])
                         out.append([ctxname, "p256", opname, fl, ["connect-flap", kind]])
                         out.append([ctxname, "p256", opname, fl, ["epm-port-135", kind]])
+                        for status in (0x1C010014, 0x1C010003, 0x000006BB):  # server too busy / unknown interface / RPC_S_SERVER_TOO_BUSY
+                            out.append([ctxname, "p256", opname, fl, ["busy-fault", kind, status]])
                     for s in range(3):
                         out.append([ctxname, "p256", opname, fl, ["subst", s]])
                     base = baseline(ctxname, "p256", opname, fl)
@@ -693,6 +712,8 @@ class C16(common.Check):
                 for al in (["fragment", "seed", "last-only"], ["fragment", "pub", "first-last"], ["strip", "seed", "plain"], ["strip", "seed", "zero-sig"],
                            ["strip", "pub", "level-none"], ["subst", 1], ["lenfix", "pad_length", 3], ["lenfix", "auth_len", 8]):
                     out.append(["raw", ctxname, fl, al])
+                for al in (["strip", "seed", "plain"], ["strip", "pub", "plain"]):
+                    out.append(["raw", ctxname, fl, al, "empty"])
             # a DH-sized reply as well (strip / lenfix only; flips in thorough)
             for fl in ("sync", "async"):
                 out.append([ctxname, "dh", "protect", fl, ["strip", "seed", "plain"]])
@@ -729,7 +750,7 @@ class C16(common.Check):
         if case[0] == "tworeq":
             return dict(zip(("kind", "ctx", "flavour", "flipped_bit_of_first_reply"), case))
         if case[0] == "raw":
-            return dict(zip(("kind", "ctx", "flavour", "alteration"), case))
+            return dict(zip(("kind", "ctx", "flavour", "alteration", "stub"), case))
         return {"ctx": case[0], "root_key": case[1], "op": case[2], "flavour": case[3], "alteration": case[4]}
 
 
